@@ -64,6 +64,19 @@ CHECKS["C08"] = dict(
     note=_RES_NOTE, technique=SYMEX, design_ref="DESIGN.md section 3, C06-C08",
 )
 
+CHECKS["C16"] = dict(
+    engine="symex", category="other",
+    text="Bounded symbolic verification of the real __hash__/__eq__/corrected_reporter/guess_edition/Resource source on pairs (quick) / triples (thorough) of citations with symbolic volume/page/reporter, 7 candidate-edition configurations and poisoned context: equivalence laws, ==/hash/Resource agreement and 'equal iff same class, volume, page, normalised reporter and no placeholder' are z3 validity queries per path; plus an exhaustive concrete sweep of reporters-db's unambiguous variations through the real extractor.",
+    note="Stubs: hash_sha256 injective; id() distinct. Outside: corrected_citation() re-parse round trip, years (C18), supra/reference equality. The reporters-db sweep is enumeration of data, reported separately from the solver result.",
+    technique=SYMEX, design_ref="DESIGN.md section 3, C16",
+)
+CHECKS["C18"] = dict(
+    engine="symex", category="other",
+    text="Bounded symbolic verification of the real get_year, guess_edition, Edition.includes_year and disambiguate_reporters source with symbolic years, edition date ranges (or None) and clock: the guess is a candidate, is made iff there is one candidate or a year singles one out, the numeric year is in [1600, bound] and equals the text, disambiguation keeps exactly the non-resource or guessed citations in order; the year-assignment sites and the remove_ambiguous tail are folded in from the extraction and filter harnesses.",
+    note="Bounds: <=2 (quick) / <=3 (thorough) candidate editions, <=3/4 citations. Stubs: datetime.now().year and helpers._highest_valid_year symbolic. Outside: inherited years of parallel citations.",
+    technique=SYMEX, design_ref="DESIGN.md section 3, C18",
+)
+
 PENDING = {}
 
 NOT_APPLICABLE = {
